@@ -177,8 +177,10 @@ def parse_model_doc(toks, i=0):
 def same_doc(impl, model, path="$"):
     """abstract comparison of a serialized document: dict order is irrelevant, floats to RTOL, types exact"""
     if isinstance(model, tuple):
+        if type(impl) is int and not isinstance(impl, bool):
+            impl = float(impl)          # a JSON number all the same (a plane built from integer arrays serializes whole numbers)
         if type(impl) is not float:
-            return "%s: impl %r is not a float" % (path, impl)
+            return "%s: impl %r is not a number" % (path, impl)
         b = model[1]
         if b is None or (isinstance(b, float) and not math.isfinite(b)) or not math.isfinite(impl):
             return None if (b is None and math.isnan(impl)) or b == impl else "%s: impl %r model %r" % (path, impl, b)
